@@ -151,7 +151,7 @@ theorem runCmd_root_none (sv : Server) (sid : Nat) (hs : sv.sess? sid = none) (c
   | unparamRouteF => rfl
   | getparams => simp only [runCmd, hs]
   | ins key before vals => simp only [runCmd, insertOrdered, hs]
-  | reorder key before => simp only [runCmd, Muscle.Reflector.reorder, hs]
+  | reorder key before => simp only [runCmd, Muscle.Reflector.reorder, Muscle.Reflector.reorderCore, hs]
   | send tag keys => simp only [runCmd, sendMsg, hs]
   | ping tag => rfl
 
